@@ -8,6 +8,7 @@ import (
 	"os"
 	"path/filepath"
 	"runtime"
+	"runtime/debug"
 	"runtime/pprof"
 	"sort"
 	"strings"
@@ -57,10 +58,11 @@ func run(t *testing.T, ck Check) {
 	total := r.RunSharded(vr.Workers(), func(sh vr.ShardInfo, p *vr.Partial) {
 		// one P per worker: helper goroutines run only while the harness goroutine is parked
 		runtime.GOMAXPROCS(1)
-		// every execution allocates ~1.5 MB of watermark windows (NewPeer); a never-touched
-		// ballast raises the heap goal so the scavenger does not madvise that memory away
-		// between executions
-		ballast = make([]byte, 192<<20)
+		// Every execution allocates 1.5-3 MB of watermark windows (NewPeer). Touching fresh
+		// pages is very expensive in this VM, so the automatic collector and the scavenger are
+		// switched off and Explore collects every gcEvery executions: the allocator then cycles
+		// through the same ~100 MB of resident memory.
+		debug.SetGCPercent(-1)
 		for i, sc := range scs {
 			Explore(t, sc, ck.Oracle, sh, filepath.Join(dir, fmt.Sprintf("s%d", i)), r.Expired, p)
 		}
@@ -101,8 +103,6 @@ func run(t *testing.T, ck Check) {
 		Assumptions: ck.Assumptions,
 	})
 }
-
-var ballast []byte
 
 func trName(k string) string {
 	switch k {
